@@ -40,6 +40,12 @@ func main() {
 		seed, _ = strconv.Atoi(s)
 	}
 	start := time.Now()
+	// an analysis that does not come to an end (a walk of the checker that cycles on a shape of code it has not met) must
+	// not hang the check: it is an internal error of the checker, reported as such (undecided = fail)
+	time.AfterFunc(20*time.Minute, func() {
+		fmt.Printf("INTERNAL-ERROR property=%s: the analysis did not finish within 20 minutes (checker defect; nothing was decided)\n", *prop)
+		os.Exit(2)
+	})
 	code := run(spec, *tier, *repo, *verif, seed, start)
 	os.Exit(code)
 }
